@@ -33,6 +33,13 @@ DEFAULT = ALL & ~(1 << TRAITS.index("duplication"))
 LEVELS = ["error", "warning", "info", "debug"]
 
 
+def stray_blanks(value: str) -> bool:
+    """blanks anywhere but directly after a comma: a spelling the documentation does not show"""
+    import re
+
+    return " " in re.sub(r", +", ",", value)
+
+
 def _preds(value):
     """'a/1, b/2' -> [[a,1],[b,2]] or None if malformed"""
     out = []
@@ -87,6 +94,9 @@ def expect(spec: dict) -> dict:
             p = _preds(v)
             if p is None:
                 return {"verdict": "reject"}
+            if stray_blanks(v):
+                # either rejected without output or meaning the blank-free list; never a predicate whose name has a blank
+                lenient = True
             decl[key] = p
     log = spec.get("log")
     if log is not None:
